@@ -66,6 +66,16 @@ fn try_run_builtin(
         }
     }
 
+    if let Some(redirect_from) = &cmd.redirect_from {
+        if redirect_from.0 == "<" {
+            let fd = tools::get_fd_from_file(&redirect_from.1);
+            if fd == -1 {
+                return Some(CommandResult::error());
+            }
+            unsafe { libc::close(fd); }
+        }
+    }
+
     let tokens = cmd.tokens.clone();
     let cname = tokens[0].1.clone();
     if cname == "alias" {
